@@ -282,6 +282,10 @@ type StorePolicy struct {
 	// NoRotate: a refresh keeps the refresh token - CreateAccessAndRefreshTokens hands the presented string back as the new
 	// refresh token (the interface allows it: "newRefreshToken" is whatever the storage decides) instead of minting a new one.
 	NoRotate bool `json:"no_rotate,omitempty"`
+	// LaxDelete: DeleteAuthRequest of a request that does not exist (any more) reports success, as a map delete or an SQL
+	// DELETE that affects no row does. The default store reports an error: the interface lets a storage do so, and it is
+	// the only way the library can learn that a concurrent token request has already spent the code.
+	LaxDelete bool `json:"lax_delete,omitempty"`
 	// EmptySecretOK: AuthorizeClientIDSecret compares the presented secret with the stored one as plain strings, so a client
 	// that holds no secret (private_key_jwt, public) "matches" an empty presented secret - as example/server/storage does.
 	// A caller that presents nothing has proved nothing: whether such a client is served is the library's decision.
@@ -586,6 +590,11 @@ func (s *Store) DeleteAuthRequest(ctx context.Context, id string) error {
 	}
 	s.mu.Lock()
 	defer s.mu.Unlock()
+	if _, ok := s.authReqs[id]; !ok && !s.Policy.LaxDelete {
+		// diligent: the request is gone (another token request spent it meanwhile) - tell the library, so that it can refuse
+		// to hand out what it built for a request that no longer exists
+		return s.refuse("grant", "auth request does not exist (any more)")
+	}
 	delete(s.authReqs, id)
 	for c, rid := range s.codes {
 		if rid == id {
